@@ -287,29 +287,40 @@ structure ImpLog where
   accts : List Nat := []
   deriving Repr
 
+/-- release the session lock and answer -/
+def impUnlock (l : Nat) (r : Resp) : Prog := .stmt (.unlockLedgerS l) fun _ => .done r
+
+/-- a failed statement of an import transaction: roll back, unlock, answer -/
+def impFail (l : Nat) (e : Err) : Prog :=
+  .stmt .rollback fun _ => impUnlock l { err := if e = .uniqueTxId then "import" else errName e }
+
+/-- a statement of an import transaction followed by `next` unless it failed -/
+def impStep (l : Nat) (st : Stmt) (next : Out → Prog) : Prog :=
+  .stmt st fun o => match o.err with
+    | some e => impFail l e
+    | none => next o
+
+/-- `DefaultController.Import`'s loop: one SQL transaction per log -/
+def impLoop (l : Nat) (sync : Bool) : Nat → List ImpLog → Prog
+  | _, [] => impUnlock l {}
+  | last, g :: gs =>
+    if last ≠ 0 && g.id ≤ last then impUnlock l { err := "import" }
+    else
+      .stmt .begin fun _ =>
+      impStep l (.updateVolumes g.ds) fun _ =>
+      impStep l (.insertTx l g.ref (some g.tx)) fun _ =>
+      impStep l (.upsertAccounts g.accts) fun _ =>
+        let ins : Prog := impStep l (.insertLog l g.ik g.hash sync (some g.id) g.tx) fun _ =>
+          .stmt .commit fun _ => impLoop l sync g.id gs
+        if sync then impStep l (.advLockLog l) fun _ => ins else ins
+
 /-- `controllerFacade.Import` ∘ `DefaultController.Import`: session-level ledger lock, state check,
     last-log check, then one SQL transaction per log -/
 def importProg (l : Nat) (sync : Bool) (logs : List ImpLog) : Prog :=
-  let unlock (r : Resp) : Prog := .stmt (.unlockLedgerS l) fun _ => .done r
-  let rec loop (last : Nat) : List ImpLog → Prog
-    | [] => unlock {}
-    | g :: gs =>
-      if last ≠ 0 && g.id ≤ last then unlock { err := "import" }
-      else
-        .stmt .begin fun _ =>
-        let fail (e : Err) : Prog := .stmt .rollback fun _ =>
-          unlock { err := if e = .uniqueTxId then "import" else errName e }
-        let onErr (o : Out) (k : Prog) : Prog := match o.err with | some e => fail e | none => k
-        .stmt (.updateVolumes g.ds) fun o => onErr o <|
-        .stmt (.insertTx l g.ref (some g.tx)) fun o => onErr o <|
-          let ins : Prog := .stmt (.insertLog l g.ik g.hash sync (some g.id) g.tx) fun o' => onErr o' <|
-            .stmt .commit fun _ => loop g.id gs
-          .stmt (.upsertAccounts g.accts) fun oa => onErr oa <|
-          if sync then .stmt (.advLockLog l) fun o' => onErr o' ins else ins
   .stmt (.lockLedgerS l) fun o => guardErr o (fun e => .done { err := errName e }) <|
     .stmt (.readState l) fun o =>
-      if !o.flag then unlock { err := "import" }
-      else .stmt (.readLastLog l) fun o => loop (headNat o) logs
+      if !o.flag then impUnlock l { err := "import" }
+      else .stmt (.readLastLog l) fun o => impLoop l sync (headNat o) logs
 
 /-- `AsyncBlockRunner.processLedger` -/
 def blocksProg (l size : Nat) : Prog :=
